@@ -63,6 +63,14 @@ def templates():
         AB,
         "True",
     )
+    CDECO = "def cdeco(tag):\n    def d(c):\n        probe(20 + tag)\n        c.tags = getattr(c, 'tags', ()) + (tag,)\n        return c\n    return d\nclass A: pass\n"
+    T["class:decorators2"] = (CDECO + "@probe(0, cdeco)(probe(1, 1))\n@probe(2, cdeco)(probe(3, 2))\nclass C(probe(4, A)):\n    v = probe(5, a)\nlog(C.tags, C.v)\n", [("a", "int")], "True")
+    T["class:decorators3_mixed"] = (CDECO + "d0 = cdeco(0)\n@probe(0, cdeco)(probe(1, 1))\n@d0\n@probe(2, cdeco(2))\nclass C:\n    v = probe(3, a)\nlog(C.tags, C.v)\n", [("a", "int")], "True")
+    T["class:decorators_in_function"] = (CDECO + "def mk():\n    @probe(0, cdeco)(probe(1, 1))\n    @probe(2, cdeco)(probe(3, 2))\n    class C(probe(4, A)):\n        def who(self):\n            return C.tags\n    return C\nlog(mk()().who())\n", [], "True")
+    T["class:decorators_in_class"] = (CDECO + "class Outer:\n    @probe(0, cdeco)(probe(1, 1))\n    @probe(2, cdeco)(probe(3, 2))\n    class C(probe(4, A)):\n        pass\nlog(Outer.C.tags)\n", [], "True")
+    T["class:bases_keywords_no_meta"] = ("class IS:\n    def __init_subclass__(cls, **kw):\n        cls.kw = sorted(kw.items())\nclass A: pass\nclass C(probe(0, A), probe(1, IS), k1=probe(2, a), k2=probe(3, b)):\n    pass\nlog(C.kw)\n", AB, "True")
+    T["def:decorators_defaults_order"] = ("def deco(tag):\n    def d(fn):\n        probe(30 + tag)\n        return fn\n    return d\n@probe(0, deco)(probe(1, 1))\n@probe(2, deco)(probe(3, 2))\ndef f(p=probe(4, a), *, q=probe(5, b)):\n    return (p, q)\nlog(f())\n", AB, "True")
+    T["def:method_decorators_defaults"] = ("def deco(tag):\n    def d(fn):\n        probe(30 + tag)\n        return fn\n    return d\nclass K:\n    @probe(0, deco)(probe(1, 1))\n    @probe(2, deco)(probe(3, 2))\n    def m(self, p=probe(4, a)):\n        return p\nlog(K().m())\n", [("a", "int")], "True")
     T["class:body_order"] = ("class C:\n    x = probe(0, a)\n    y = probe(1, x + 1)\n    def m(self, p=probe(2, y)):\n        return p\n    z = probe(3, b)\nlog(C.x, C.y, C().m(), C.z)\n", AB, "True")
     # --- headers
     T["if:elif"] = ("if probe(0, a > 0):\n    mark(0)\nelif probe(1, b > 0):\n    mark(1)\nelif probe(2, a == b):\n    mark(2)\nelse:\n    mark(3)\n", AB, "True")
